@@ -229,6 +229,17 @@ func init() {
 }
 
 func runC08(c *Ctx) {
+	// one client, several connections: the negotiation state of the previous one must not leak
+	for _, rounds := range []string{
+		"drop;multi-prefix away-notify|ack;server-time",
+		"nak;multi-prefix account-tag|ack;away-notify",
+		"partial;multi-prefix chghost|ack;server-time batch",
+		"ack;multi-prefix message-tags|ack;away-notify",
+		"drop;away-notify|drop;multi-prefix|ack;account-notify server-time",
+		"ack;multi-prefix|nak;away-notify|ack;chghost",
+	} {
+		c.run("capreconnect", map[string]string{"rounds": rounds})
+	}
 	r := c.R
 	r.Rule = "real sessions: server behaviours over CAP LS (0-3 '*' continuation lines), ACK (of what was requested, of a subset, of junk), NAK, NEW, DEL in any order, capability lists drawn from supported/unsupported/junk with and without values, " +
 		"crossed with configurations (SASL on/off, extra SupportedCaps with and without values, DisableSTS, SSL, tracking disabled); state dumps (enabled/pending caps) and HasCapability compared with the model, " +
